@@ -250,6 +250,8 @@ def run_case(ctx, i, rng):
         return relink_case(ctx, i, rng, res)
     if i >= n_table_cases + len(samples) and i % 5 == 1:
         return generated_case(ctx, i, rng, res)
+    if i >= n_table_cases + len(samples) and i % 5 == 2:
+        return edit_query_case(ctx, i, rng, res)
     # documents inside the sample workspace
     files = dict(sample_workspace_files())
     files.pop("", None)
@@ -371,12 +373,82 @@ def relink_case(ctx, i, rng, res):
     return res
 
 
+def edit_query_case(ctx, i, rng, res):
+    """unsaved in-line edits of an open document interleaved with positional requests: every range answered must address the buffer as it is
+    now (caches keyed on the saved state, columns taken from an earlier version of a line)"""
+    quick = ctx.tier == "quick"
+    if rng.random() < 0.5:
+        w = MD.gen_workspace(rng, style=None)
+        files = dict(w.files)
+        rel = rng.choice(sorted(files))
+    else:
+        files = dict(sample_workspace_files())
+        files.pop("", None)
+        rel = rng.choice(sorted(f for f, t in files.items() if isinstance(t, str) and f.endswith((".f90", ".F90")) and len(t) < 8000))
+    with H.Workspace(files) as ws:
+        srv = H.Server(["--incremental_sync"] + (["--enable_code_actions"] if rng.random() < 0.5 else []), nthreads=2)
+        docinfo = {"kind": "edit-query", "doc": rel, "files": {rel: files[rel]}, "edits": []}
+        mon = RangeMonitor(res, ws, lambda msg, rg, jp: dict(docinfo, edits=list(docinfo["edits"]), request=msg, range=rg, path=jp))
+        srv.monitors.append(mon)
+        ctx.mark({"kind": "edit-query", "doc": rel})
+        srv.initialize(ws.root)
+        uri, path = ws.uri(rel), ws.path(rel)
+        srv.did_open(uri)
+        cur = srv.lines_of(path)
+        if cur is None:
+            return res
+        cur = list(cur)
+        res.kind("doc:edit-query")
+        for step in range(6 if quick else 20):
+            # a small edit inside one line: indent / un-indent, insert or delete a few characters, rename a word
+            cand = [n for n, l in enumerate(cur) if IDENT.search(l)]
+            if not cand:
+                break
+            ln = rng.choice(cand)
+            L = cur[ln]
+            op = rng.randrange(5)
+            if op == 0:
+                a, b, t = 0, 0, " " * rng.randint(1, 3)
+            elif op == 1 and L[:1] == " ":
+                a, b, t = 0, min(len(L) - len(L.lstrip()), rng.randint(1, 2)), ""
+            elif op == 2:
+                m_ = rng.choice(list(IDENT.finditer(L)))
+                a, b, t = m_.start(), m_.end(), m_.group() + rng.choice(["x", "_1", ""])[:rng.randint(0, 2)] if rng.random() < 0.5 else m_.group()[:-1]
+            elif op == 3:
+                a = b = rng.randint(0, len(L))
+                t = rng.choice([" ", "  ", "x", "(", ")", ","])
+            else:
+                a = rng.randint(0, len(L))
+                b = min(len(L), a + rng.randint(1, 3))
+                t = ""
+            ch = {"range": {"start": {"line": ln, "character": a}, "end": {"line": ln, "character": b}}, "text": t}
+            cur[ln] = L[:a] + t + L[b:]
+            docinfo["edits"].append(ch)
+            srv.did_change(uri, [ch])
+            if srv.lines_of(path) != cur:
+                break
+            # requests at identifiers of the edited line and of a few other lines
+            pos = []
+            for l2 in [ln] + rng.sample(cand, min(len(cand), 3)):
+                for m_ in IDENT.finditer(cur[l2]):
+                    pos.append((l2, m_.start()))
+                    pos.append((l2, m_.end()))
+            if len(pos) > (10 if quick else 40):
+                pos = rng.sample(pos, 10 if quick else 40)
+            sweep(res, srv, ws, rel, pos, dict(docinfo, edits=list(docinfo["edits"])))
+    return res
+
+
 def generated_case(ctx, i, rng, res):
     """a generated multi-file program (vf.model), every file swept"""
     quick = ctx.tier == "quick"
     w = MD.gen_workspace(rng, style=MD.Style(rng) if rng.random() < 0.5 else None, tight=rng.random() < 0.3)
     files = dict(w.files)
-    if rng.random() < 0.35:
+    if rng.random() < 0.25:
+        # submodule + INCLUDEd fragments (short files included deep inside longer ones)
+        from vf import hostassoc as HA
+        files = HA.gen(rng)[0]
+    elif rng.random() < 0.35:
         # fixed-form rendering of the same program (continuation marks in column 6, labels, comment flags)
         from vf import layout as LY
         fx = {}
@@ -443,6 +515,10 @@ def replay(ctx, w):
                 if os.path.exists(ws.path(h[1])):
                     os.remove(ws.path(h[1]))
                 srv.did_close(u)
+        if w.get("edits"):
+            srv.did_open(ws.uri(w["doc"]))
+            for ch in w["edits"]:
+                srv.did_change(ws.uri(w["doc"]), [ch])
         p = json.loads(json.dumps(w.get("params") or (w.get("request") or {}).get("params")))
         rel = w.get("doc") or "tbl.f90"
         # the uri of the original scratch directory is gone: re-root it
